@@ -9,3 +9,4 @@ for c in "$@"; do (cd /verif && ./check $c quick 2>&1 | grep -v "^KNOWN-FINDING"
 git -C /repo checkout -- .
 cp -a $B/. /verif/evidence/; rm -rf $B
 (cd /verif/harness && cargo build 2>&1 | tail -1)
+python3 /verif/tools/translate.py > /dev/null 2>&1
